@@ -821,6 +821,11 @@ func (g *gen) builderPhase() {
 	}
 	for i, m := 0, g.r.Range(1, 4); i < m; i++ {
 		k := addKey(keys)
+		if g.hid == 5 && len(keys) > 0 && g.r.Bool() {
+			// an Eqv-but-not-identical key: the persistent path stores the NEW key, the in-place path keeps the old one
+			k = g.collider(keys[g.r.Intn(len(keys))])
+			g.it.count("builder:set-alias-after-build")
+		}
 		keys = append(keys, k)
 		g.touched = k
 		g.emit(L(A("sb"), A("add"), I(k)))
